@@ -2,7 +2,7 @@
 import numpy as np
 
 
-def header(nchan, count, nbytes=2, byte_format="01", coding="pcm", hsize=1024, rate=8000, extra=(), omit=(), lead=(), trail=""):
+def header(nchan, count, nbytes=2, byte_format="01", coding="pcm", hsize=1024, rate=8000, extra=(), omit=(), lead=(), trail="", fill=b" "):
     fields = [
         ("channel_count", "-i %d" % nchan),
         ("sample_count", "-i %d" % count),
@@ -23,7 +23,7 @@ def header(nchan, count, nbytes=2, byte_format="01", coding="pcm", hsize=1024, r
     b = h.encode()
     if len(b) > hsize:
         raise ValueError("header too long")
-    return b + b" " * (hsize - len(b))
+    return b + fill * (hsize - len(b))  # (what follows end_head up to the declared size is padding: any bytes)
 
 
 METADATA = tuple("note_%03d -s10 abcdefghij" % j for j in range(38))  # (pushes the mandatory fields across byte 1024)
